@@ -1,7 +1,8 @@
 (* Proofs/TTHeaderP.v — the statements of C06 and C10 in the shape Properties/C06.v and
    Properties/C10.v quote them (lemmas: TTHeaderLib, TTHeaderSec, TTHeaderDec, TTHeaderEnc). *)
 From GV Require Import Lib.Bytes Lib.Res Gen.Consts Model.TTHeader Spec.FrameLayout.
-From GV Require Export Proofs.TTHeaderLib Proofs.TTHeaderSec Proofs.TTHeaderDec Proofs.TTHeaderEnc.
+From GV Require Export Proofs.TTHeaderLib Proofs.TTHeaderSec Proofs.TTHeaderDec Proofs.TTHeaderEnc
+     Proofs.TTHeaderRef.
 From Coq Require Import ZifyN ZifyNat ZifyBool Permutation.
 Open Scope N_scope.
 
